@@ -81,6 +81,12 @@ prop('C11', 'model_checking', 'explicit-state BFS over sequences of tune2fs invo
      '(after the e2fsck run tune2fs asked for, which must exit <= 1).',
      'state space is closed under de-duplication only up to the depth bound; quick expands the second level with the 27 conversion operations only. Two root causes are known findings (tune2fs ignores the orphan file; e2fsck mis-accounts inline-data symlinks in quota); one defect (^dir_index without e2fsck request) was repaired.', '4/C11')
 
+prop('C12', 'model_checking', 'exhaustive enumeration of chains of undo-recording tool runs (depth <= 2, thorough 3) over a menu of 18 runs x devices (block sizes, odd lengths, offset), byte-identity oracle after e2undo; exhaustive single-bit damage of undo files',
+     'Every chain up to the depth bound of tune2fs/resize2fs/e2fsck/debugfs -w/mke2fs runs recording to one undo file (-z), on devices with 1k/2k/4k filesystems, lengths that are not a multiple of the undo block size (stamped tails) and a filesystem at offset 4096, plus every single run '
+     'with a simulated unfinished recording: e2undo -n writes nothing; e2undo exits 0 and the device is byte-identical over its original length to its state before the first recorded run (after an abnormal end: except the needs-check marking of the primary superblock). '
+     'Every single-bit flip (quick: one per byte) of a tune2fs undo file and of the header/key area of a mke2fs undo file: e2undo either refuses without writing or restores exactly.',
+     'tool-level (the undo manager is driven through the tools); image files truncated by resize2fs are re-extended to emulate a block device. Known finding: chains that mix filesystem block sizes on one undo file. One defect (write_byte offset applied twice) was repaired.', '4/C12')
+
 def main():
     props = [json.loads(l) for l in open(os.path.join(V, 'properties.jsonl'))]
     checks, na = [], []
